@@ -172,9 +172,12 @@ def run_solver_case(H, hsource, form, icvar, icv, tvar, red):
     return ('ok' if not viols else 'violation'), viols
 
 
-def run_model_case(H, form_kind, n_extra, ickind, tvar_unused=None):
-    """Model path: one sector; exogenous given as str / list object / tuple object / float."""
+def run_model_case(H, form_kind, n_extra, ickind, tvar_unused=None, hsrc='model'):
+    """Model path: one sector; exogenous given as str / list object / tuple object / float.
+    hsrc: the horizon comes from Model.MaxTime, or is set on the model's solver directly (Model.MaxTime is then smaller)."""
     case = {'path': 'model', 'H': H, 'form': form_kind, 'extra': n_extra, 'ic': ickind}
+    if hsrc != 'model':
+        case['hsrc'] = hsrc
     n = H + 1 + n_extra
     vals = [float(i + 1) for i in range(n)]
     value = {'str': '[' + ', '.join(repr(v) for v in vals) + ']', 'list': list(vals), 'tuple': tuple(vals)}[form_kind]
@@ -210,6 +213,9 @@ def run_model_case(H, form_kind, n_extra, ickind, tvar_unused=None):
         m.AddInitialCondition('A', 'LAG_x', 1e9 + 7)
         icexp = ('A__LAG_x', 1e9 + 7)
     m.MaxTime = H
+    if hsrc == 'solver':
+        m.MaxTime = max(0, H - 2)
+        m.EquationSolver.MaxTime = H
     must_reject = n < H + 1
     err = None
     try:
@@ -330,6 +336,13 @@ def run_unit(unit, tier):
                 for ic in ('none', 'sector', 'model', 'lag', 'precise', 'third', 'big'):
                     dig.add(('model', H, form_kind, extra, ic))
                     outcome, viols = run_model_case(H, form_kind, extra, ic)
+                    if H >= 1 and ic in ('none', 'lag') and extra >= 0:
+                        dig.add(('model-solver-horizon', H, form_kind, extra, ic))
+                        o2, v2 = run_model_case(H, form_kind, extra, ic, hsrc='solver')
+                        res['evaluations'] += 1
+                        res['nontrivial'] += 1
+                        core.bump(res['outcomes'], 'model:solver-horizon:' + o2)
+                        res['violations'].extend(v2[:2])
                     res['evaluations'] += 1
                     res['nontrivial'] += 1
                     core.bump(res['outcomes'], 'model:' + outcome)
@@ -349,7 +362,7 @@ def replay(case):
     if case['path'] == 'reuse':
         return run_reuse_case(case['H1'], case['H2'], case['reduction'], case['tvar'])[1][:1]
     if case['path'] == 'model':
-        return run_model_case(case['H'], case['form'], case['extra'], case['ic'])[1][:1]
+        return run_model_case(case['H'], case['form'], case['extra'], case['ic'], hsrc=case.get('hsrc', 'model'))[1][:1]
     form = [f for f in exo_forms(case['H']) if f[0] == case['form']][0]
     icv = [v for v in ICVALS if v[0] == case['icval']][0]
     return run_solver_case(case['H'], case['hsource'], form, case['icvar'], icv, case['tvar'], case['reduction'])[1][:1]
